@@ -172,6 +172,21 @@ def strat_unknown_mix():
     return st.tuples(gens.all_clean_peer(), st.sampled_from(CATS), gens.unknown_name(16).filter(lambda s: not s.startswith('gss-')), st.one_of(st.none(), gens.gss_name()), st.sampled_from(['server', 'client']), st.sampled_from(OPTION_SETS)).map(build)
 
 
+def strat_empty_names():
+    """Empty name-lists and empty elements (a,,b / trailing comma) anywhere among rated names."""
+    def build(t):
+        base, edits, role, opts = t
+        lists = {c: list(v) for c, v in base.items()}
+        for cat, how, pos in edits:
+            if how == 'empty-list':
+                lists[cat] = ['']
+            else:
+                l = lists[cat]
+                l.insert(min(pos, len(l)) if how == 'insert' else len(l), '')
+        return {'kind': 'rated', 'lists': lists, 'role': role, 'opts': ['-n'] + opts}
+    return st.tuples(gens.rated_peer(), st.lists(st.tuples(st.sampled_from(CATS), st.sampled_from(['empty-list', 'insert', 'trailing']), st.integers(0, 4)), min_size=1, max_size=3), st.sampled_from(['server', 'client']), st.sampled_from(OPTION_SETS)).map(build)
+
+
 def valid_case(case):
     if case.get('kind') == 'rated':
         return all(len(case['lists'][c]) >= 1 for c in CATS)
@@ -214,6 +229,7 @@ def run(ctx):
     n = 2500 if ctx.quick else 40000
     ctx.hyp('strat_rated', n, label=1)
     ctx.hyp('strat_unknown_mix', 400 if ctx.quick else 6000, label=2)
+    ctx.hyp('strat_empty_names', 500 if ctx.quick else 8000, label=3)
     bc = broken_cases(ctx.quick)
     ctx.map(bc)
     from ssh_audit.builtin_policies import BUILTIN_POLICIES
